@@ -6,13 +6,13 @@ export GOFLAGS=-mod=mod GOPROXY=off GOSUMDB=off GOTOOLCHAIN=local
 D="$(readlink -f "$1")"; PKG="$2"; RUN="$3"; shift 3
 T="$(mktemp -d /tmp/confirm.XXXXXX)"; trap 'rm -rf "$T"' EXIT
 ( cd /repo && tar --exclude=.git -cf - . ) | ( cd "$T" && tar -xf - )
-cp "$D"/demo*_test.go "$T/$PKG/" 2>/dev/null
+cp "$D"/*_test.go "$T/$PKG/" 2>/dev/null
 ( cd "$T" && go test -vet=off -count=1 "$@" -run "$RUN" "./$PKG/" >"$T/clean.log" 2>&1 ); clean=$?
 ( cd "$T" && patch -p1 -s < "$D/patch.diff" ) || { echo "RESULT patch_applies=no"; exit 1; }
 ( cd "$T" && go build ./... >"$T/build.log" 2>&1 ); build=$?
-rm -f "$T/$PKG"/demo*_test.go
+for f in "$D"/*_test.go; do rm -f "$T/$PKG/$(basename "$f")"; done
 ( cd "$T" && go test -vet=off -count=1 ./... >"$T/suite.log" 2>&1 ); suite=$?
-cp "$D"/demo*_test.go "$T/$PKG/"
+cp "$D"/*_test.go "$T/$PKG/"
 ( cd "$T" && go test -vet=off -count=1 "$@" -run "$RUN" "./$PKG/" >"$T/mut.log" 2>&1 ); mut=$?
 echo "RESULT patch_applies=yes build=$build repo_suite=$suite demo_on_clean=$clean demo_on_mutant=$mut  (want 0 0 0 nonzero)"
 [ $build -eq 0 ] && [ $suite -eq 0 ] && [ $clean -eq 0 ] && [ $mut -ne 0 ]
